@@ -211,7 +211,7 @@ def run(ctx):
         "Oracle: >= 1 picture, even count for fields, pic_num 0..n-1, each component exactly the coded size, every sample a Python int in "
         "[0, 2^depth).  Correspondence: counts/numbering/sizes of those runs, clip of float_to_int_clipped on special floats, "
         "progressive_to_pictures on labelled lines.  Separate probe at 64/65-bit depths.")
-    n_formats = ctx.pick(70, 1500)
+    n_formats = ctx.pick(160, 3000)
     specs = []
     for i in range(n_formats):
         big = (i % 25 == 24)
@@ -222,10 +222,23 @@ def run(ctx):
         s["base"], s["range"], s["colour"], s["par"] = b, None, None, None
         specs.append(s)
     lits, metas = [], []
-    import time
+    import time, os
     t0 = time.time()
+    # corpus of past/interesting cases first
+    cdir = os.path.join(os.path.dirname(os.path.dirname(os.path.dirname(os.path.abspath(__file__)))), "corpus", "C22")
+    for n in (sorted(os.listdir(cdir)) if os.path.isdir(cdir) else []):
+        if n.endswith(".json"):
+            try:
+                c = json.load(open(os.path.join(cdir, n)))
+                lit, failed = generator_case(ctx, c["generator"], c["spec"])
+                ctx.count(1, key=("corpus", n), bucket="corpus")
+                if lit is not None:
+                    lits.append(lit)
+                    metas.append({"generator": c["generator"], "spec": c["spec"]})
+            except Exception as e:
+                ctx.note("corpus file %s: %r" % (n, e))
     for k, spec in enumerate(specs):
-        names = GEN_NAMES if (k % 3 == 0 or not ctx.quick) else [GEN_NAMES[k % 5], GEN_NAMES[(k + 2) % 5], "white_noise" if k % 2 else "mid_gray"]
+        names = GEN_NAMES
         for name in dict.fromkeys(names):
             lit, failed = generator_case(ctx, name, spec)
             vp, pcm = build_vp(spec)
